@@ -1,14 +1,19 @@
 /-
   Driver.ReaderMain — line-protocol driver of the reader component (C08/C10): one line in, one line out.
     leb <u32|i32|u64|i64> <hex>            → Driver.ReaderLeb
+    read <debug> <strict> <hex> | sha1 <hex> → Driver.ReaderDump
 -/
 import Driver.ReaderLeb
+import Driver.ReaderDump
 
 open Driver.Reader
 
 def handle (line : String) : String :=
   let ws := words line
   match lebCmd ws with
+  | some r => r
+  | none =>
+  match readCmd ws with
   | some r => r
   | none => "err unknown-command"
 
